@@ -10,6 +10,7 @@ import (
 // C08: codon usage tables count exactly and never leak between calls.
 //
 // verif:bound C08 counting clause: coding sequences over all 128 ASCII values (any case, non-ACGT letters, lengths not divisible by 3), length 0..7 (quick) / 0..10 (thorough), tables 1 and 11
+// verif:bound C08 long-sequence clause: coding sequences of 12300 and 24600 (quick) / 4098..65538 (thorough) bases: periodic concrete body, the last two complete codons symbolic
 // verif:bound C08 history clause: operation sequences of length 2..3 (quick) / 2..4 (thorough) over 'request default table a', 're-weight default table a with a symbolic one-codon sequence', 'add two held tables', table id pairs {1,2}, {1,11}, {27,28} (the last two share their amino-acid strings); every held table compared with a value-semantics model after every step
 // verif:bound C08 serialise/parse clause: a default table serialised to JSON text, parsed, re-weighted with a symbolic codon, the same text parsed again (must be pristine), the re-weighted table serialised and parsed (JSON text layer of the engine)
 // verif:bound C08 outside the claim: concurrent re-weighting and the race detector (pre-emption between synchronisation points is not modelled); sequences longer than the bound
@@ -181,6 +182,29 @@ func Harness_C08_SerialiseParse() {
 	c08Check(c08Held{d, m, id}, "re-weighted-table-survives-serialise-parse")
 }
 
+// long coding sequences (chunked / parallel counting would show here)
+func Harness_C08_LongCounting() {
+	sizes := []int{12300, 24600}
+	if vTier(0, 1) == 1 {
+		sizes = []int{4098, 12288, 12300, 24600, 49155, 65538}
+	}
+	n := sizes[vChoice(len(sizes))]
+	body := make([]byte, n)
+	for i := range body {
+		body[i] = "GCTGCTAAAGCTTTTGCTGGA"[i%21]
+	}
+	// the symbolic codons come last (a symbolic codon early in the sequence would turn every later
+	// count into a chain of thousands of conditional increments)
+	last := (n/3)*3 - 6
+	s := string(body[:last]) + vBytes(6, "ACGTacgt") + string(body[last+6:])
+	table := GetCodonTable(11).OptimizeTable(s)
+	up := c08Upper(s)
+	for _, aa := range table.AminoAcids {
+		for _, c := range aa.Codons {
+			vAssert(vEqInt(c.Weight, c08Count(up, c.Triplet)), "weight-is-in-frame-count")
+		}
+	}
+}
 func Selftest_C08_JSON() {
 	vJSONText()
 	b, err := ioutil.ReadFile("../../data/bsub_codon_test.json")
